@@ -351,6 +351,16 @@ def check_selection(ctx):
     if win:
         WINDOW_ATTR = 'self.' + win[0].name
         ctx.holds(rule, comp, "self.<window> = bisturi_conf.get('search_buffer_length')", 'the configured search window', win[0].lineno, clause='a')
+        # ... and it stays what was configured (0 / None: unbounded; n: the first n bytes)
+        altered = {}
+        for p in paths:
+            if p.raises():
+                continue
+            last = [e for e in p.effects if e.kind == 'store_attr' and canon(e.obj) == 'self' and e.name == win[0].name]
+            if last and canon(last[-1].value) != "bisturi_conf.get('search_buffer_length')":
+                altered.setdefault(canon(last[-1].value), last[-1])
+        for t, e in sorted(altered.items()):
+            ctx.violation(rule, comp, '%s = %s' % (WINDOW_ATTR, t[:120]), 'the configured search window is replaced by another value: the documented meaning of the option (unset / 0: search everything, n: only the next n bytes) no longer holds', e.lineno, clause='a', witness=True)
     else:
         ctx.violation(rule, comp, 'search window', "no attribute is filled from the class option search_buffer_length: the configured search window is ignored", comp.node.lineno, clause='a')
     want = {'int', 'field', 'callable', 'expression', 'bytes-marker', 'regex-marker'}
